@@ -156,99 +156,6 @@ Definition sym_loc (F : list fact) (asz : Z -> Z) (args : list operand) (r : sra
   | PArg i => let '(b, o) := resolve RFUEL F asz (aget (OLab 0) args i) in mkml o (sym_size args (sr_size r)) b
   end.
 
-(* ------------------------------------------------------------------ upper bounds of index expressions *)
-Definition min_opt (a b : option Z) : option Z :=
-  match a, b with Some x, Some y => Some (Z.min x y) | Some x, None => Some x | None, b => b end.
-(* an `assert (lt x N)` has passed *)
-Definition asserted_lt (F : list fact) (x : N) : option Z :=
-  fold_left (fun acc g =>
-    match g with
-    | FNz (OVar c) =>
-        match find_def F c with
-        | Some (op, [OLit n; OVar y]) => if (op =s "lt") && N.eqb x y then min_opt acc (Some (n mod W - 1)) else acc
-        | _ => acc
-        end
-    | _ => acc
-    end) F None.
-
-Fixpoint ubound (fuel : nat) (F : list fact) (o : operand) : option Z :=
-  match o with
-  | OLit v => Some (v mod W)
-  | OLab _ => None
-  | OVar x =>
-    match fuel with
-    | O => None
-    | S n =>
-      min_opt (asserted_lt F x)
-        match find_def F x with
-        | Some (op, a) =>
-          if op =s "assign" then match a with [q] => ubound n F q | _ => None end
-          else if op =s "mod" then
-            match a with [OLit m; _] => if 0 <? m mod W then Some (m mod W - 1) else None | _ => None end
-          else if op =s "shl" then
-            match a with
-            | [q; OLit s] => match ubound n F q with
-                             | Some u => if s mod W <? 256 then (if u * 2 ^ (s mod W) <? W then Some (u * 2 ^ (s mod W)) else None) else None
-                             | None => None
-                             end
-            | _ => None
-            end
-          else if op =s "mul" then
-            match a with
-            | [q1; q2] => match ubound n F q1, ubound n F q2 with
-                          | Some u1, Some u2 => if u1 * u2 <? W then Some (u1 * u2) else None
-                          | _, _ => None
-                          end
-            | _ => None
-            end
-          else if op =s "add" then
-            match a with
-            | [q1; q2] => match ubound n F q1, ubound n F q2 with
-                          | Some u1, Some u2 => if u1 + u2 <? W then Some (u1 + u2) else None
-                          | _, _ => None
-                          end
-            | _ => None
-            end
-          else None
-        | None => None
-        end
-    end
-  end.
-(* 8 for every concrete F; written so that it is not a constructor for a variable F: otherwise the kernel's conversion
-   unfolds the six-way recursion of `ubound` when it compares two occurrences in a proof *)
-Definition UFUEL_OF (F : list fact) : nat := (8 + List.length F) - List.length F.
-
-(* pointer = base of allocation id + o + d with 0 <= d <= u *)
-Definition try_bp (F : list fact) (asz : Z -> Z) (b i : operand) : option (Z * Z * Z) :=
-  match resolve RFUEL F asz b with
-  | (Some id, Some o) => match ubound (UFUEL_OF F) F i with Some u => Some (id, o, u) | None => None end
-  | _ => None
-  end.
-Definition bounded_ptr (F : list fact) (asz : Z -> Z) (p : operand) : option (Z * Z * Z) :=
-  match p with
-  | OVar x =>
-      match find_def F x with
-      | Some (op, [q1; q2]) =>
-          if op =s "add" then match try_bp F asz q1 q2 with Some r => Some r | None => try_bp F asz q2 q1 end else None
-      | _ => None
-      end
-  | _ => None
-  end.
-
-(* a SUPERSET of the cells of the access: an access of known size at a bounded index into an allocation is replaced by the
-   whole span it can touch, which has a fixed offset and size (so the in-bounds test and may_overlap apply).  Only used
-   where a superset is sound (what an instruction may write / a fact or instruction may read), never for must-writes. *)
-Definition sym_locU (F : list fact) (asz : Z -> Z) (args : list operand) (r : srange) : memloc :=
-  let l := sym_loc F asz args r in
-  match ml_offset l, sr_ptr r, ml_size l with
-  | None, PArg i, Some n =>
-      match bounded_ptr F asz (aget (OLab 0) args i) with
-      | Some (id, o, u) => if (0 <=? n) && (o + u + n <=? asz id) then mkml (Some o) (Some (u + n)) (Some id) else l
-      | None => l
-      end
-  | _, _, _ => l
-  end.
-
 Definition inb (asz : Z -> Z) (l : memloc) : bool :=
   match ml_alloca l, ml_offset l, ml_size l with
   | Some id, Some o, Some n => (0 <=? o) && (0 <=? n) && (o + n <=? asz id)
@@ -278,11 +185,11 @@ Definition fact_reads (g : fact) : list sp * list (list operand * srange) :=
 Definition sp_written (sh : shape) (s : sp) : bool := in_sps s (sh_wall sh).
 (* the write footprint of an instruction, resolved once *)
 Definition wlocs (F : list fact) (asz : Z -> Z) (sh : shape) (args : list operand) : list (sp * memloc) :=
-  map (fun w => (sr_sp w, sym_locU F asz args w)) (sh_w sh).
+  map (fun w => (sr_sp w, sym_loc F asz args w)) (sh_w sh).
 Definition range_clear (strict : bool) (F : list fact) (asz : Z -> Z) (sh : shape) (wl : list (sp * memloc))
            (gargs : list operand) (r : srange) : bool :=
   negb (sp_written sh (sr_sp r)) &&
-  forallb (fun w => negb (sp_eqb (fst w) (sr_sp r)) || locs_disjoint strict asz (snd w) (sym_locU F asz gargs r)) wl.
+  forallb (fun w => negb (sp_eqb (fst w) (sr_sp r)) || locs_disjoint strict asz (snd w) (sym_loc F asz gargs r)) wl.
 Definition survives (strict : bool) (F : list fact) (asz : Z -> Z) (outs : list N) (sh : shape) (wl : list (sp * memloc))
            (g : fact) : bool :=
   negb (existsb (mentions g) outs) &&
